@@ -174,7 +174,7 @@ def run(tier, seed):
     cfgs = [(2, 2, 6), (2, 3, 6), (3, 2, 6)] + ([(3, 3, 9), (2, 3, 9)] if thorough else [])
     for nc, d, mx in cfgs:
         cfg = tlc.cfg_text({"Callers": "@{" + ",".join("c%d" % (i + 1) for i in range(nc)) + "}", "Draws": d,
-                            "MAX": mx, "Locked": True}, invariants=["Distinct", "NonZero", "Consecutive"],
+                            "MAX": mx, "Locked": True}, invariants=["Distinct", "NonZero", "Consecutive", "OrderIsF"],
                            properties=["StepOk"])
         r = tlc.run("SeqGen", cfg, "c16_mc_%d_%d_%d" % (nc, d, mx), coverage=True, timeout=900)
         tlc.must_ok(r, "SeqGen")
@@ -265,6 +265,9 @@ def run(tier, seed):
                       "distinct = distinct (generator, callers, draws, start, line-level interleaving); "
                       "non-trivial = at least two callers inside next_sequence/next_id concurrently is possible (always, >= 2 callers)")
 
+    # ---- A2. unbounded: inductive invariant of the locked generator at MAX = 2^32 - 1 (Apalache) -----
+    apalache_phase(ck)
+
     # ---- C. arithmetic on full-width values (TLC evaluator) ------------------
     ns = load()
     H = ns.helpers
@@ -344,6 +347,49 @@ def run(tier, seed):
     ck.cov["long_sequence_draws"] = N * 4
     ck.sample({"session_ids": sess[:3]})
     return ck.finish()
+
+
+def apalache_phase(ck):
+    """spec/apalache/SeqGenInd.tla: Init => IndInv, IndInv /\\ Next => IndInv', IndInv => Safety, and the arithmetic lemma of
+    F over unconstrained integers; a copy whose wrap goes to 0 must be rejected (vacuity guard)."""
+    import shutil
+    import subprocess
+    if shutil.which("apalache-mc") is None:
+        ck.note("apalache-mc not found: the unbounded inductive check was skipped")
+        return
+    src = os.path.join(os.path.dirname(OUT), "spec", "apalache")
+    work = os.path.join(OUT, "c16_apalache")
+    shutil.rmtree(work, ignore_errors=True)
+    os.makedirs(work)
+    for f in ("SeqGenInd.tla", "FLemma.tla"):
+        shutil.copy(os.path.join(src, f), work)
+    bad = os.path.join(work, "bad")
+    os.makedirs(bad)
+    text = open(os.path.join(src, "SeqGenInd.tla")).read()
+    if "seq' = 1 /\\ pc'" not in text:
+        raise tlc.TlcError("SeqGenInd.tla: the wrap action no longer reads as expected (vacuity guard cannot be built)")
+    open(os.path.join(bad, "SeqGenInd.tla"), "w").write(text.replace("seq' = 1 /\\ pc'", "seq' = 0 /\\ pc'"))
+
+    def ap(cwd, module, init, inv, length, tag):
+        p = subprocess.run(["apalache-mc", "check", "--init=" + init, "--inv=" + inv, "--length=%d" % length,
+                            "--out-dir=" + os.path.join(work, "out_" + tag), module], cwd=cwd, capture_output=True, text=True, timeout=900)
+        out = p.stdout + p.stderr
+        open(os.path.join(work, tag + ".log"), "w").write(out)
+        if "The outcome is: NoError" in out:
+            return True
+        if "The outcome is: Error" in out:
+            return False
+        raise tlc.TlcError("apalache failed (%s): %s" % (tag, out[-1500:]))
+    obligations = [(work, "SeqGenInd.tla", "Init", "IndInv", 0, "base"), (work, "SeqGenInd.tla", "IndInit", "IndInv", 1, "step"),
+                   (work, "SeqGenInd.tla", "IndInit", "Safety", 0, "safety"), (work, "FLemma.tla", "Init", "Lemma", 0, "lemma")]
+    for cwd, mod, init, inv, ln, tag in obligations:
+        if not ap(cwd, mod, init, inv, ln, tag):
+            raise tlc.TlcError("apalache: obligation %s (%s, %s) of SeqGenInd does not hold: see out/c16_apalache/%s.log" % (tag, init, inv, tag))
+    if ap(bad, "SeqGenInd.tla", "IndInit", "IndInv", 1, "guard"):
+        raise tlc.TlcError("vacuity guard failed: SeqGenInd with a wrap to 0 still satisfies the inductive step")
+    shutil.rmtree(work, ignore_errors=True)
+    ck.cov["apalache_inductive_invariant"] = "IndInv of spec/apalache/SeqGenInd.tla: base, step, Safety, FLemma hold for MAX = 2^32 - 1, 3 callers, unbounded draws; wrap-to-0 copy rejected"
+    ck.cov["apalache_obligations"] = len(obligations) + 1
 
 
 def replay(path, seed):
